@@ -58,6 +58,12 @@ def exec_inv_for(I, st, env, it, spec):
                 notes = ";".join(I.ctx.notes[-6:])
                 raise Unsupported("loop invariant (%s) not provable %s [%s]" % (label, what, notes))
 
+    def assume_clauses(vars_):
+        """the arbitrary object the builder returns satisfies every invariant clause (clauses may relate it to other
+        variables of the function, e.g. `retTier.name == self.name`, which the builder alone cannot say)"""
+        for label, text in clauses:
+            I.ctx.assume(I.pure(S.expr_fn(text, [], vars_)))
+
     cur = env.lookup(var)
     if callable(clauses):
         clauses = clauses(cur)  # e.g. by the class of the carried object
@@ -80,6 +86,7 @@ def exec_inv_for(I, st, env, it, spec):
         for o in reachable(fresh):
             o.owner = id(I.ctx)  # the iteration owns (may mutate) the object it starts from
         cenv.vars[var] = fresh
+        assume_clauses(dict(cenv.vars))
         I.assign(st.target, value, cenv)
         try:
             I.exec_block(body, cenv)
@@ -98,6 +105,7 @@ def exec_inv_for(I, st, env, it, spec):
     for o in reachable(out):
         o.owner = id(I.ctx)
     env.vars[var] = out
+    assume_clauses(dict(env.vars))
 
 
 def exec_fold_for(I, st, env, it, spec):
